@@ -53,7 +53,15 @@ def make_requests(rng):
                   "inputs": {"b": tensor("d0s1", [3, 4], content([3, 4], 6)), "c": tensor("d0d1", [3, 4], content([3, 4], 12))}}
     reqs["r7"] = {"text": "o() = u(i) * v(i)", "output_format": "", "backend": "llvm",
                   "inputs": {"u": tensor("s0", [7], content([7], 4)), "v": tensor("d0", [7], content([7], 7))}}
-    keys = {"r1": "k1", "r2": "k1", "r8": "k1", "r9": "k4", "r3": "k3", "r4": "k4", "r6": "k4", "r5": "k5", "r7": "k7"}
+    # tensor operators with a Python number (they evaluate through the same cache): long dense operands so that a call
+    # is in flight for a while
+    big = tensor("d0", [3000], [[[i], {"n": 1 + i % 3, "e": 0}] for i in range(3000)])
+    mat = tensor("d0s1", [40, 50], content([40, 50], 700))
+    for name, o in (("o1", {"op": "*", "left": big, "right": 2.0}), ("o2", {"op": "-", "left": 3.0, "right": big}),
+                    ("o3", {"op": "+", "left": big, "right": 0.5}), ("o4", {"op": "*", "left": -1.5, "right": big}),
+                    ("o5", {"op": "*", "left": mat, "right": 4.0}), ("o6", {"op": "+", "left": mat, "right": mat})):
+        reqs[name] = {"operator": o, "backend": "llvm"}
+    keys = {"o1": "ko1", "o2": "ko2", "o3": "ko3", "o4": "ko4", "o5": "ko5", "o6": "ko6", "r1": "k1", "r2": "k1", "r8": "k1", "r9": "k4", "r3": "k3", "r4": "k4", "r6": "k4", "r5": "k5", "r7": "k7"}
     return reqs, keys
 
 
@@ -131,7 +139,7 @@ def run(tier, seed):
         names = list(reqs)
         for fr in range(P["free_rounds"]):
             nth = P["nthreads"]
-            pick = [rng.choice(names) for _ in range(nth)]
+            pick = [rng.choice([n_ for n_ in names if not n_.startswith("o")]) for _ in range(nth)]
             if fr % 2 == 0:
                 pick = [rng.choice(["r1", "r2", "r3", "r7", "r8", "r8"]) for _ in range(nth - 3)] + [rng.choice(["r4", "r5", "r6"]) for _ in range(3)]
             threads = [(i + 1, pick[i]) for i in range(nth)]
@@ -141,6 +149,11 @@ def run(tier, seed):
             threads = [(i + 1, ["r1", "r8", "r2", "r8"][i % 4] if hr % 2 == 0 else ["r4", "r9", "r6", "r9"][i % 4]) for i in range(P["nthreads"])]
             rounds.append({"rid": len(rounds), "scenario": "hammer", "threads": threads, "warm": [threads[0][1]], "schedule": None,
                            "hammer": P.get("hammer_calls", 300)})
+        # operator hammer: every thread applies a tensor operator with its own Python number, over and over
+        for hr in range(max(1, P.get("hammer_rounds", 2) // 2)):
+            threads = [(i + 1, ["o1", "o2", "o3", "o4", "o5", "o6"][i % 6]) for i in range(P["nthreads"])]
+            rounds.append({"rid": len(rounds), "scenario": "operator-hammer", "threads": threads, "warm": ["o1"], "schedule": None,
+                           "hammer": max(40, P.get("hammer_calls", 300) // 3)})
         # run all rounds natively (several sacrificial workers, each with its own interpreter)
         chunks = [rounds[i::14] for i in range(14)]
         tasks = [{"id": str(i), "op": "concurrency", "requests": reqs, "rounds": ch, "timeout": 900} for i, ch in enumerate(chunks) if ch]
